@@ -166,13 +166,19 @@ void harness(void)
 
 /* lha_decoder_new leaves exactly the state box_init builds */
 static int init_called;
-static int t_init(void *extra, LHADecoderCallback cb, void *cbdata) { (void) extra; (void) cb; (void) cbdata; init_called = 1; return 1; }
+static u8 init_result;
+static int t_init(void *extra, LHADecoderCallback cb, void *cbdata) { (void) extra; (void) cb; (void) cbdata; init_called = 1; return init_result & 1; }
 void harness_new(void)
 {
-	INPUT(u32, declared);
+	INPUT(u32, declared); INPUT(u8, init_ok);
 	LHADecoder *d;
 	script_type.init = t_init;
+	init_result = init_ok;
 	d = lha_decoder_new(&script_type, 0, 0, declared);
+	/* C20: a method whose init fails (the MacBinary pass-through on a short member) yields no decoder and leaves nothing
+	 * allocated; checked by CBMC's memory-leak instrumentation at the end of this function (leak=True in the plan) */
+	if (!(init_ok & 1)) CHECK(d == NULL, "C20/C14: no decoder is returned when the method's init fails");
+	if (d == NULL && !(init_ok & 1)) WITNESS("init failed");
 	if (d != NULL) {
 		CHECK(d->dtype == &script_type && d->progress_callback == NULL && d->last_block == UINT_MAX
 		      && d->outbuf_pos == 0 && d->outbuf_len == 0 && d->stream_pos == 0 && d->stream_length == declared
